@@ -512,3 +512,75 @@ def float_write_default_ops(rng, ty, bits_list):
     for b in bits_list:
         ops.append("dwf %s %x -" % (ty, b))
     return ops
+
+
+# ---------------------------------------------------------------------------------------------
+# exact decimal ties (the literal is EXACTLY half-way between two adjacent floats)
+
+def exact_ties(rng, ty, per_q):
+    """(digits, q) with digits*10^q exactly a midpoint of two adjacent normal floats, digits <= 19 long;
+    such ties exist only for a short window of q (this is Eisel-Lemire's round-to-even window)."""
+    p, eb = FLOAT_TYPES[ty]
+    out = []
+    for q in range(-30, 40):
+        got = 0
+        tries = 0
+        while got < per_q and tries < per_q * 60:
+            tries += 1
+            if q >= 0:
+                f5 = 5 ** q
+                need = p + 1 - f5.bit_length()
+                if need < 1 and f5.bit_length() != p + 1:
+                    break
+                # odd t with about `need` bits, product must have exactly p+1 bits
+                t = (rng.getrandbits(need + 1) | 1) if need >= 1 else 1
+                odd = t * f5
+                if odd.bit_length() != p + 1:
+                    continue
+                m = t << rng.randint(0, 6)
+                if m >= 10 ** 19:
+                    continue
+            else:
+                f5 = 5 ** (-q)
+                lim = (10 ** 19 - 1) // f5
+                if lim.bit_length() < p + 1:
+                    break
+                t = (rng.getrandbits(p + 1) | (1 << p) | 1)
+                if t > lim:
+                    continue
+                m = t * f5
+                j = rng.randint(0, 3)
+                if m << j < 10 ** 19:
+                    m <<= j
+            out.append((m, q))
+            got += 1
+    return out
+
+
+def exact_tie_ops(rng, fs, per_q=6, lossy=False):
+    ops = []
+    fmt = fmt_hex(pack(10))
+    for ty in ("f64", "f32"):
+        for (m, q) in exact_ties(rng, ty, per_q):
+            d = str(m)
+            for s in (lit(d, q, 10, 10), lit(d, q, 10, 10, point=rng.randint(0, len(d))), plain_decimal(d, q)):
+                if s is None:
+                    continue
+                ops.append(pf_op(ty, fmt, s, 10, partial=rng.choice([0, 1]), lossy=lossy))
+                if not lossy:
+                    ops.append("dpf %s %d %s" % (ty, rng.choice([0, 1]), hexs(s)))
+            # just above / just below the tie
+            ops.append(pf_op(ty, fmt, lit(d + "0" * 20 + "1", q - 21, 10, 10), 10, lossy=lossy))
+            if m > 1:
+                ops.append(pf_op(ty, fmt, lit(str(m - 1) + "9" * 21, q - 21, 10, 10), 10, lossy=lossy))
+    return ops
+
+
+def plain_decimal(d, q):
+    """digits*10^q without exponent notation (None when that would be absurdly long)"""
+    if q >= 0:
+        return d + "0" * q if q < 40 else None
+    k = -q
+    if k < len(d):
+        return d[:-k] + "." + d[-k:]
+    return "0." + "0" * (k - len(d)) + d if k < 60 else None
